@@ -13,6 +13,10 @@ session 3: file toys with every expected_load_error set (narrow, Exception, tupl
           ones cover the library's own LimitOverrunError), peeking and read-ahead loaders, debug=True; `follow` = number of small
           frames pipelined behind the frame under test (several documents in one read); the drive loop has an item budget
           (`loop` = an error that consumes nothing is reported for ever); delivered packets are retained and re-rendered.
+session 4: limits ABOVE the default read size (20000, 40000, 65536) with buffer hints below and above them and frames at 16 KiB +- 1
+          and at the edge of the accepted zone, for every buffered serializer family incl. base64 (new framer kind here) and file
+          toys with a 2..4-byte length header (`_big_limits`; model runs of big frames are sub-sampled); options that leave the
+          framing alone (ASCII-transparent encodings x error handlers, JSON knobs, separator check off).
 """
 from __future__ import annotations
 
@@ -51,6 +55,8 @@ RULE = ("case = framer x payload length (0..limit+|sep|+read) x terminated? x cu
         "[limit-|sep|-1, limit+|sep|+1] or unterminated beyond the limit; distinct by case digest")
 
 _aux: dict[str, Any] = {}
+BIG_SKIPPED = [0]
+SKIP: set[str] = set()
 
 
 def _payload(spec: dict, n: int) -> bytes:
@@ -62,10 +68,20 @@ def _payload(spec: dict, n: int) -> bytes:
             return b"7" * max(n, 1)
         return b'"' + b"a" * (n - 2) + b'"'
     if k in sers.FILE_TOYS:
-        return bytes([n]) + b"q" * n
+        return n.to_bytes(_hdr(spec), "big") + b"q" * n
+    if k == "b64":
+        # a decodable token of exactly n bytes for n = 0 mod 4 (the generators round n): base64 of a text of the inner line serializer
+        import base64
+        raw = b"q" * (3 * (n // 4))
+        enc = base64.standard_b64encode if sers.recv_spec(spec).get("alphabet") == "standard" else base64.urlsafe_b64encode
+        return enc(raw)
     sep = sers.separator(spec)
     fill = next(bytes([c]) for c in b"bcxyz" if c not in sep)
     return fill * n
+
+
+def _hdr(spec: dict) -> int:
+    return sers.recv_spec(spec).get("hdr", 1)
 
 
 def _unterminated(case: dict) -> bytes:
@@ -106,6 +122,9 @@ def _stream(case: dict) -> bytes:
             return jraw.unterminated(spec["shape"], n)
         if k == "json" and sep is None:
             return b'"' + b"a" * max(n - 1, 0)        # a string that never closes
+        if k in sers.FILE_TOYS and _hdr(spec) > 1:
+            top = min(1 << 20, 256 ** _hdr(spec) - 1)
+            return top.to_bytes(_hdr(spec), "big") + b"q" * min(n, top - 1)   # header promises 1 MiB (64 KiB - 1 with 2 bytes)
         if k in sers.FILE_TOYS:
             return bytes([200]) + b"q" * min(n, 199)  # header promises 200 bytes
         return p
@@ -196,6 +215,16 @@ def real_for_diff(case: dict, real: list[str]) -> list[str]:
 def model_input(case: dict, real: list[str]):
     if "loop" in real or any(ln.startswith("mutated ") for ln in real):
         return None
+    if case["n"] > 8192:
+        # the Lean separator framer models are quadratic in the frame length (and the buffered one in the limit): of the frames
+        # above 8 KiB, one in forty of those up to 21000 bytes under a limit of at most 20000 goes through them, and one in three
+        # of the file-toy frames through the generic (linear) model; the oracle judges all of them
+        toy = sers.recv_spec(case["spec"])["k"] in sers.FILE_TOYS
+        d = int(core.case_digest(case)[:4], 16)
+        if (d % 3) if toy else (case["n"] > 21000 or sers.limit_of(case["spec"]) > 20000 or d % 40):
+            BIG_SKIPPED[0] += 1
+            SKIP.add(core.case_digest(case))
+            return None
     head = sers.model_head(case["spec"], case["path"], case.get("hint", 0))
     aux = _aux.get(core.case_digest(case))
     if head is None or aux is None:
@@ -224,7 +253,7 @@ def _safe(case: dict, maxread: int) -> bool:
         # ---- raw JSON framer ---- exact threshold (DESIGN.md C07 table): |document| <= limit
         return len(_payload(spec, n)) <= lim
     if k in sers.FILE_TOYS:
-        return (n + 1) + maxread <= lim
+        return (n + _hdr(spec)) + maxread <= lim
     return True
 
 
@@ -320,12 +349,19 @@ def _gen_spec(rng):
     spec = _gen_spec0(rng)
     if rng.random() < 0.3:
         spec["debug"] = True
+    # session 4: constructor options that do not change the framing (ASCII-transparent encodings x error handlers, JSON encoder /
+    # decoder knobs, base64 alphabet, separator check off): the accepted zone must not move
+    if sers.recv_spec(spec)["k"] in ("line", "json", "autosep") and not spec.get("shape") and rng.random() < 0.4:
+        sers.vary(rng, spec, ascii_only=True)
     return spec
 
 
 def _gen_spec0(rng):
-    k = rng.choice(["line", "autosep", "autosep", "jsonl", "jsonraw", "filetoy", "filetoy"])
+    k = rng.choice(["line", "autosep", "autosep", "jsonl", "jsonraw", "filetoy", "filetoy", "b64"])
     lim = rng.choice([4, 6, 8, 10, 12, 16, 24])
+    if k == "b64":
+        return {"k": "b64", "inner": {"k": "line", "newline": "LF", "limit": 65536, "encoding": "utf-8"},
+                "alphabet": rng.choice(["standard", "urlsafe"]), "checksum": False, "separator": rng.choice(sers.B64_SEPS), "limit": max(lim, 8)}
     if k == "line":
         return {"k": "line", "newline": rng.choice(["LF", "CR", "CRLF"]), "keep_end": rng.random() < 0.3,
                 "encoding": "ascii", "limit": lim}
@@ -342,6 +378,8 @@ def _gen_spec0(rng):
     e = rng.choice(sers.EXPECTED_KEYS)
     if e != "toy":
         spec["expected"] = e
+    if rng.random() < 0.25:
+        spec["hdr"] = rng.choice([2, 3, 4])
     return spec
 
 
@@ -383,12 +421,14 @@ def generate(rng, tier: str, boost: int):
         sep = sers.separator(spec) or b""
         path = "buffered" if (sers.is_buffered(spec) and rng.random() < 0.5) else "copy"
         maxn = lim + len(sep) + 8
-        if sers.recv_spec(spec)["k"] in sers.FILE_TOYS:
+        if sers.recv_spec(spec)["k"] in sers.FILE_TOYS and _hdr(spec) == 1:
             maxn = min(maxn, 199)
         nn = rng.randint(0, maxn)
         terminated = rng.random() < 0.7
         if not terminated:
             nn = rng.randint(lim, lim * 3 + 10)
+        if spec["k"] == "b64":
+            nn -= nn % 4            # (a decodable base64 token has a length that is a multiple of 4)
         mode = rng.random()
         if mode < 0.3:
             cuts = [1]
@@ -421,6 +461,7 @@ def generate(rng, tier: str, boost: int):
             case["cuts"] = [rng.choice([nn + 1, nn + 4, lim + 1, 2 * lim, 1000])]
         yield case
     # ---- end raw JSON framer ----
+    yield from _big_limits(rng, tier)
     if tier == "thorough":
         for lim in range(4, 17):
             for sephex in ("0a", "0d0a", "616162"):
@@ -431,13 +472,58 @@ def generate(rng, tier: str, boost: int):
                             yield {"spec": spec, "path": path, "n": nn, "terminated": True, "cuts": [c1, 1], "hint": 4}
 
 
+def _big_limits(rng, tier: str):
+    """limits ABOVE the default read size (16 KiB): 20000, 40000 and the default 65536, with buffer hints (`max_recv_size`) below and
+    above them, for every buffered serializer family (line, AutoSeparated subclass, base64, JSON lines on the copy path, file toys
+    with a wide length header) — frames at 16 KiB - 1 / 16 KiB / 16 KiB + 1 (where a buffer sized after the read size instead of
+    the limit would stop), the last frame of the accepted zone of each path, the first frame beyond it, and unterminated data far
+    beyond the limit.  Reads of 1 KiB .. 16 KiB (a drip feed of 64 KiB costs seconds and adds nothing here)."""
+    KB16 = 16384
+    for lim in (20000, 40000, 65536):
+        specs = [
+            {"k": "line", "newline": "LF", "keep_end": False, "encoding": "ascii", "limit": lim},
+            {"k": "line", "newline": "CRLF", "keep_end": True, "encoding": "utf-8", "errors": "surrogateescape", "limit": lim, "debug": True},
+            {"k": "autosep", "sep": "3c7c3e", "limit": lim, "check": True},
+            {"k": "b64", "inner": {"k": "line", "newline": "LF", "limit": 65536, "encoding": "utf-8"}, "alphabet": "urlsafe", "checksum": False,
+             "separator": "0d0a", "limit": lim},
+            {"k": "json", "use_lines": True, "limit": lim},
+            {"k": "filetoy", "limit": lim, "hdr": 4},
+            {"k": "filepeek", "limit": lim, "hdr": 3, "expected": "exception"},
+            {"k": "stapledbuf", "sent": {"k": "line", "newline": "CR", "limit": 1, "encoding": "ascii"},
+             "received": {"k": "line", "newline": "CR", "limit": lim, "encoding": "ascii"}},
+        ]
+        for spec in specs:
+            sep = sers.separator(spec) or b""
+            toy = sers.recv_spec(spec)["k"] in sers.FILE_TOYS
+            for path in (("copy", "buffered") if sers.is_buffered(spec) else ("copy",)):
+                for hint in ((1024, KB16, 65536) if path == "buffered" else (KB16,)):
+                    read = rng.choice([1024, 4096, 8192, KB16])
+                    if toy:
+                        # accepted for sure: frame + one read <= limit (C07 table)
+                        edge = lim - read - _hdr(spec)
+                        ns = [KB16 - 1 - _hdr(spec), KB16 - _hdr(spec), edge, edge + 1]
+                        ns = [n for n in ns if 0 <= n <= edge + 1]
+                    else:
+                        edge = lim - len(sep) - 1 if path == "buffered" else lim
+                        ns = [KB16 - 1, KB16, KB16 + 1, rng.randint(KB16 + 2, edge - 1), edge, edge + 1, lim + len(sep) + read + 7]
+                    for n in ns:
+                        if spec["k"] == "b64":
+                            n -= n % 4
+                        yield {"spec": spec, "path": path, "n": n, "terminated": True, "cuts": [read], "hint": hint, "pattern": 0,
+                               "follow": rng.choice([1, 3])}
+                    yield {"spec": spec, "path": path, "n": lim + rng.choice([1, 5000, 30000]), "terminated": False, "cuts": [read],
+                           "hint": hint, "pattern": rng.choice([0, 0, 7])}
+
+
 def after_batch() -> None:
     _aux.clear()
+    SKIP.clear()
 
 
 # ---- raw JSON framer ----
 def extra_coverage(stats) -> dict:
-    return {"model_runs_by_framer": dict(sorted(sers.MODEL_RUNS.items())), "retained_packets": dict(sd.RETAINED)}
+    return {"model_runs_by_framer": dict(sorted(sers.MODEL_RUNS.items())), "retained_packets": dict(sd.RETAINED),
+            "model_runs_skipped_big_frames": BIG_SKIPPED[0]}
 # ---- end raw JSON framer ----
 
 
